@@ -56,13 +56,13 @@ def apply(r, cfg, name):
     if name == 'runtime':
         r.call(inv.read_runtime_data)
     elif name == 'sensor:first':
-        r.call(inv.read_sensor, inv.sensors()[1].id_)
+        r.call(inv.read_sensor, world.listed(inv)[1].id_)
     elif name == 'sensor:all':
-        for x in inv.sensors():
+        for x in world.listed(inv):
             r.call(inv.read_sensor, x.id_)
     elif name == 'settings:colliding':
         # ids that exist both as a sensor and as a setting (different registers): the other entry point first
-        both = {x.id_ for x in inv.sensors()} & {x.id_ for x in inv.settings()}
+        both = {x.id_ for x in world.listed(inv)} & {x.id_ for x in inv.settings()}
         for sid in sorted(both):
             r.call(inv.read_setting, sid)
     elif name == 'dev:battery-off':
@@ -116,7 +116,10 @@ def sweep(cfg, fill, hist, transport='udp'):
              tuple(sorted(inv._sensors_map)) if getattr(inv, '_sensors_map', None) else None,
              tuple(dev.refused) if hasattr(dev, 'refused') else None, dev.rf.get(35184) if cfg['family'] == 'ET' else None,
              getattr(dev, 'fill_name', None))
-    ids = [s for s in inv.sensors()]
+    ids = world.listed(inv)
+    if ids.error:
+        return [('sensors()-works', ids.error, None)], h(state), 0
+    ids = list(ids)
     if len(hist) >= 2:
         # deeper histories: one representative per (type, hundred-register range) instead of every id (every id is swept
         # after the empty and the one-letter histories)
